@@ -214,7 +214,8 @@ def check(tier, seed):
     res = bounded.run_native("c14_convert.py", ["--n", str(n), "--seed", str(seed)])
     lines, ev, err = bounded.report("C14", "to_networkx_graph / stack / index on ragged episodes", res, "c14_convert.py")
     extra = dict(bounded=[dict(ev, bound=f"{n} random ragged multi-episode graphs: to_networkx_graph of the real code must contain exactly the vertices with seq != -1 and the edges with both ends != -1; "
-                                          "an episode extracted from Graph.stack must give the same networkx graph as the original episode")],
+                                          "an episode extracted from Graph.stack must give the same networkx graph as the original episode; records of real nodes with shadow-named connections converted by to_graph and filtered "
+                                          "(Graph.filter, EpisodeRecord.filter, every subset, both flags) must keep precisely the selected nodes and the connections among them")],
                  assumptions=["filter / to_graph are analysed on an enumerated topology (3 nodes, shadow-named connection, all listed subsets) with symbolic payloads: bounded in topology",
                               "to_networkx_graph (loops over numpy arrays, networkx) is covered by the bounded stand-in only"])
     code = check_property("C14", UNITS, tier, seed, extra=extra)
